@@ -135,16 +135,17 @@ static const PmcConfig CFG[] = {
     {"pa0pR0,pa0ppr0,ppi0", 3, {0,0}, {0,0}, {0,0}, {0,0}, "one vCPU: a stray interrupt lands on the recycling releaser while it waits for the other holder"},
     {"a0R0|a0yr0|yi0",     3, {1,2}, {0,0}, {0,0}, {0,0}, "... across vCPUs"},
     {"pa0pM0,pa0ppr0,ppi0", 2, {0,0}, {0,0}, {0,0}, {0,0}, ""},
-    {"gen3x1",             3, {0,0}, {0,0}, {0,0}, {0,0}, "generated: every 3-thread program of one episode each (acquire ok/slow/fail/slow-fail + release / recycle / hand over / hold past lifespan + expire, expire, other key, interrupt), every arrival order"},
-    {"gen2x2",             3, {0,0}, {0,0}, {0,0}, {0,0}, "generated: 2 threads x up to 2 episodes"},
-    {"gen4x1",             2, {0,0}, {0,0}, {0,0}, {0,0}, ""},
-    {"gen3x2",             2, {0,0}, {0,0}, {0,0}, {0,0}, ""},
     {"a0r0,a0R0|a0r0te",   2, {1,2}, {0,0}, {0,0}, {0,0}, ""},
     {"a0r0|a0r0|a0R0",     2, {1,2}, {0,0}, {0,0}, {0,0}, "three vCPUs"},
     {"a0r0,s0r0,a0R0",     3, {0,0}, {0,0}, {0,0}, {0,0}, "one vCPU"},
     {"pa0pr0,ps0pr0,pa0pR0", 3, {0,0}, {0,0}, {0,0}, {0,0}, "one vCPU, every arrival order"},
     {"pa0pr0t,pa0pr0,pepa0r0", 3, {0,0}, {0,0}, {0,0}, {0,0}, "one vCPU: expiry vs re-acquire"},
     {"pf0r0,pa0pr0,ps0r0",   3, {0,0}, {0,0}, {0,0}, {0,0}, "one vCPU: failing / slow / ok constructors"},
+    // generated programs last: they take whatever budget the configs above leave
+    {"gen3x1",             3, {0,0}, {0,0}, {0,0}, {0,0}, "generated: every 3-thread program of one episode each (acquire ok/slow/fail/slow-fail + release / recycle / hand over / hold past lifespan + expire, expire, other key, interrupt), every arrival order"},
+    {"gen2x2",             2, {0,0}, {0,0}, {0,0}, {0,0}, "generated: 2 threads x up to 2 episodes"},
+    {"gen4x1",             2, {0,0}, {0,0}, {0,0}, {0,0}, ""},
+    {"gen3x2",             2, {0,0}, {0,0}, {0,0}, {0,0}, ""},
 };
 const PmcConfig* pmc_configs(int* n) { *n = sizeof CFG / sizeof CFG[0]; return CFG; }
 const char* pmc_property(void) { return "C19"; }
